@@ -699,6 +699,9 @@ def main(tier, seed):
                 shutil.rmtree(os.path.join(base, d), ignore_errors=True)
     except Exception:
         pass
+    # whole-run traces of `inspect` validated against specs/Osaca.tla (clauses owned by this property)
+    from harness import osaca_run
+    osaca_run.whole_runs(run, "C11", tier, seed, n_quick=24)
     return run.finish()
 
 
